@@ -294,7 +294,15 @@ where
                 }
             }
             JSXElementName::JSXMemberExpr(expr) => jsx_member_expr_to_expr(expr),
-            JSXElementName::JSXNamespacedName(name) => Expr::JSXNamespacedName(name.clone()),
+            JSXElementName::JSXNamespacedName(name) => {
+                HANDLER.with(|handler| {
+                    handler.span_err(name.span, "Namespaced tag names are not supported.")
+                });
+                Expr::Lit(Lit::Str(quote_str!(format!(
+                    "{}:{}",
+                    name.ns.sym, name.name.sym
+                ))))
+            }
         }
     }
 
